@@ -34,3 +34,24 @@ Definition detect_terminal (tmux_env : option (list N)) (term : list N) (layers 
 (* TupimageTerminal.__init__ with num_tmux_layers = "auto" *)
 Definition detect_highlevel (tmux_env : option (list N)) (term : list N) : nat :=
   if detect_with detect_needles_highlevel tmux_env term then 1%nat else 0%nat.
+
+(* ------------------------------------------------------------------ re-configuration of a live high-level terminal
+   The layer count lives in two places: the configuration of the TupimageTerminal (what `t.num_tmux_layers` reads back)
+   and the GraphicsTerminal `t.term` that wraps the commands.  `t.num_tmux_layers = v` is [SetLayers] / [SetAuto];
+   [propagates] says whether the setter also writes the GraphicsTerminal (Gen.highlevel_setter_propagates: repair of
+   F-C11a; the pinned tree's setter changed the configuration only; its "auto" stayed the string "auto", modelled as
+   an unchanged count since nothing downstream reads it). *)
+Record hl := { cfg_layers : nat; term_layers : nat }.
+Inductive reconf :=
+| SetLayers (n : nat)
+| SetAuto (tmux_env : option (list N)) (term : list N).
+Definition hl_step (propagates : bool) (s : hl) (op : reconf) : hl :=
+  match op with
+  | SetLayers n => {| cfg_layers := n; term_layers := if propagates then n else term_layers s |}
+  | SetAuto env term =>
+      if propagates then let n := detect_terminal env term 0 in {| cfg_layers := n; term_layers := n |}
+      else s
+  end.
+Definition hl_run (propagates : bool) (s : hl) (ops : list reconf) : hl := fold_left (hl_step propagates) ops s.
+(* what the terminal emits for a command: wrapped with the GraphicsTerminal's count *)
+Definition hl_emit (s : hl) (content : list N) : option (list N) := emit (term_layers s) content.
